@@ -441,7 +441,42 @@ func (in *Interp) runFrame(fr *Frame, name string) Value {
 			panic(pathEnd{"unwind", fmt.Sprintf("block %d of %s visited more than %d times", b.Index, name, in.unwind)})
 		}
 		var next *ssa.BasicBlock
-		for _, ins := range b.Instrs {
+		// phis are evaluated in parallel on entry to the block
+		nphi := 0
+		if len(b.Instrs) > 0 {
+			if _, ok := b.Instrs[0].(*ssa.Phi); ok {
+				var vals []Value
+				for _, ins := range b.Instrs {
+					phi, ok := ins.(*ssa.Phi)
+					if !ok {
+						break
+					}
+					var v Value
+					found := false
+					for i, pred := range b.Preds {
+						if pred == fr.prev {
+							if fr.tolerant && in.unsetReg(fr, phi.Edges[i]) {
+								v = nil
+							} else {
+								v = in.eval(fr, phi.Edges[i])
+							}
+							found = true
+							break
+						}
+					}
+					if !found {
+						panic(engineError{"phi: no matching predecessor"})
+					}
+					vals = append(vals, v)
+				}
+				for i, v := range vals {
+					fr.regs[fr.info.idx[b.Instrs[i].(*ssa.Phi)]] = v
+				}
+				nphi = len(vals)
+				in.steps += nphi
+			}
+		}
+		for _, ins := range b.Instrs[nphi:] {
 			in.steps++
 			if in.steps > in.maxSteps {
 				panic(pathEnd{"steps", fmt.Sprintf("more than %d instructions on one path", in.maxSteps)})
